@@ -541,6 +541,8 @@ def main(argv):
                            'log_tail': proof['log'][-2500:]})
         for d in rep.disagreements:
             broken.append({'what': 'model/implementation correspondence differs: ' + d.get('what', ''), 'case': d.get('replay')})
+        for d in rep.disagreements[:3]:
+            log(f'{pid}: disagreement: ' + ' '.join(str(d.get('what', '')).split())[:400])
         if broken and not rep.violations and hasattr(mod, 'search'):
             log(f'{pid}: {len(broken)} broken obligation(s)/correspondence(s); running the large search')
             ctx2 = Ctx(pid, tier, seed, sc, random.Random(seed + 1), deep=True)
